@@ -1,6 +1,7 @@
 package planner
 
 import (
+	"errors"
 	"fmt"
 
 	"github.com/buildbuildio/pebbles/common"
@@ -31,6 +32,11 @@ func (sp SequentialPlanner) Plan(ctx *PlanningContext) (*QueryPlan, error) {
 	steps, err := createQueryPlanSteps(ctx, nil, parentType, "", selSet)
 	if err != nil {
 		return nil, err
+	}
+
+	// f.e. `{ node(id: "1") { id } }`: only the inline fragments of a node query are routed
+	if len(steps) == 0 {
+		return nil, errors.New("unable to plan the operation: no selected field can be routed to a service")
 	}
 
 	qp := &QueryPlan{
